@@ -60,7 +60,6 @@ CLASS_TO_FINDING = {
     "not_qelib1:cvdg": "C11-gate-not-in-qelib1",
     "reference_parameter_by_name": "C11-reference-parameter-by-name",
     "nonfinite_parameter": "C11-nonfinite-parameter-text",
-    "cu3_relative_phase": "C11-cu3-relative-phase",
     "empty_statement": "C11-empty-statement",
     "undeclared_register": "C11-undeclared-register",
     "unchecked_operands": "C11-unchecked-operands-exported",
@@ -83,7 +82,7 @@ SPEC = {
     "required": ["export_structure", "export_ok_iff", "export_first_failure", "export_refuses", "export_ok_only_expressible",
                  "templates_as_modelled", "structural_literals_as_modelled", "constant_gates_exact", "cv_cvdg_not_in_qelib1",
                  "parametrised_one_qubit_gates", "semantics_is_fold", "neg_basis_measurement", "neg_condition_first_statement_only",
-                 "neg_empty_control_list", "neg_condition_target_overflow", "neg_cu3_relative_phase", "neg_empty_statement",
+                 "neg_empty_control_list", "neg_condition_target_overflow", "neg_empty_statement",
                  "neg_reference_parameter", "neg_not_qelib1", "neg_export_panics", "pos_conditional_agrees", "pos_bell_agrees"],
     "drivers": ["drv_c11"],
     "harness_bin": "c11",
@@ -112,9 +111,9 @@ def run(ctx):
     ctx.assumptions += [
         "Rust's `Display for f64` is not modelled: the model keeps a displayed number as a value and (A) compares numeric tokens by value "
         "(the text is read back with a correctly rounded decimal-to-double conversion, Base/DecFloat in the driver, float() in the check)",
-        "the reference semantics is my reading of OpenQASM 2.0 and of qelib1.inc as published with the specification (arXiv:1707.03429), "
-        "written from memory in lean/Q1t/Spec/OQ2.lean: 23 gates, each by its body over U and CX; in particular cu3 WITHOUT the later "
-        "`u1((lambda+phi)/2) c` correction (class cu3_relative_phase depends on this reading)",
+        "the reference semantics is my reading of OpenQASM 2.0 and of qelib1.inc (the 23 gates of the file published with the "
+        "specification, arXiv:1707.03429), written from memory in lean/Q1t/Spec/OQ2.lean, each gate by its body over U and CX; "
+        "cu3 is read with the corrected body (leading `u1((lambda+phi)/2) c;`, i.e. the exact controlled u3), see the Spec header",
         "theorems about the exported program speak about the model's structured lines read as an OpenQASM syntax tree (Proofs/OpenQasm*.lean: toProgram); "
         "that the implementation's TEXT lexes to the model's tokens and parses to a program with the same branch semantics is checked on every "
         "generated case by (A) and (B), not proved (no printer/parser round-trip theorem)",
